@@ -672,8 +672,10 @@ def geomKindName : GeomKind → String
 def cfgKey (c : Config) : String :=
   s!"{staticKey c.st}|{geomKindName c.geom.kind}|{c.geom.tok}|{showRat c.D}|{showRat c.rb}"
 
+/-- Key of the recorded-temperature table: every component of `SimArgs` except the interpolation descriptor
+    (which is a function of the others). -/
 def simKey (a : SimArgs) : String :=
-  s!"{staticKey a.st}#{a.field}#{a.gtok}#{showRats a.look.heights}#{showRat a.h}#{showMethod a.method}"
+  s!"{staticKey a.st}#{a.field}#{a.gtok}#{showRat a.D}#{showRat a.rb}#{showRat a.hLoad}#{showRats a.look.heights}#{showRat a.h}#{showMethod a.method}"
 
 def parseMethod? : String → Option Method
   | "hybrid" => some .hybrid | "hourly" => some .hourly | "other" => some .other | _ => none
